@@ -123,8 +123,9 @@ PROPS["C06"] = dict(
         "c06_register_one_descriptor_step": dict(cap=1800),
         "c06_register_two_descriptors_new_then_known": dict(cap=2400),
         "c06_register_two_descriptors_other_shapes": dict(cap=3600, tier="thorough"),
-        "c06_unregister_step": dict(cap=1800),
-        "c06_same_collector_twice_and_gather": dict(cap=1800),
+        "c06_unregister_live_collector_step": dict(cap=2400),
+        "c06_unregister_unknown_collector_step": dict(cap=2400),
+        "c06_same_collector_twice_and_gather": dict(cap=5400, tier="thorough"),
     },
     functions=["RegistryCore::register", "RegistryCore::unregister", "RegistryCore::gather"],
     bounds="one register / unregister step from an ARBITRARY registry state of fixed shape (2 live descriptor ids, 2 names with recorded dimensions, 1 live collector; all ids and dimension hashes symbolic 64-bit values, names symbolic in {a,b,c}); collectors with 1 or 2 symbolic descriptors; unwind 6",
@@ -293,11 +294,15 @@ PROPS["C04"] = dict(
     hosts={"encoder_text": ["c04.rs"]},
     jobs=5,
     harnesses={
-        "c04_escape_string_2_bytes": dict(cap=1800),
+        "c04_escape_string_1_byte": dict(cap=1500),
+        "c04_escape_string_2_bytes": dict(cap=3600, tier="thorough"),
         "c04_escape_string_3_bytes": dict(cap=3600, tier="thorough"),
-        "c04_escape_string_multibyte": dict(cap=1800),
-        "c04_write_sample_layout": dict(cap=2400),
+        "c04_escape_string_multibyte": dict(cap=3600, tier="thorough"),
+        "c04_write_sample_layout": dict(cap=5400, tier="thorough"),
         "c04_write_sample_no_labels": dict(cap=1800),
+        "c04_encode_histogram_family_layout": dict(cap=2400),
+        "c04_encode_two_families_order_and_agreement": dict(cap=2400),
+        "c04_encode_summary_family_layout": dict(cap=2400),
     },
     functions=["text::escape_string", "text::label_pairs_to_text", "text::write_sample"],
     bounds="escape_string: every string of 2 (quick) / 3 (thorough) bytes over {backslash, quote, LF, CR, letter} and the 2-byte character e-acute next to each class, both modes; write_sample: 2 labels + additional label with 1-byte symbolic values, every f64 bit pattern as value (marker rendering), every i64 timestamp; unwind 10-20",
@@ -352,6 +357,37 @@ MANIFEST_TEXT["C02"] = dict(
     technique="Lal-Reps K-round sequentialisation of the real observe/proto code (Kani/CBMC) plus a z3 RC11 release/acquire litmus built from the atomic events extracted from the crate's MIR (E5)",
     level="Kani: every K-round round-robin schedule of one observer and one collector (quick; more threads in thorough) yields a snapshot that is one consistent cut respecting real time. z3: no RC11-consistent execution lets the collector count an observation/flush whose bucket or sum update it then misses; twins with the publication weakened are sat. Bounded threads, rounds, buckets; litmus bounded to 1 observer/flush x 1 collector.",
     note="Trusted: crate::verif_sync (SC), the MIR reader's classification of atomic locations (fails closed), the RC11 fragment encoded (po, rf, mo, release sequences, sw, hb, coherence, RMW atomicity; no fences, no SC axioms).",
+)
+
+MANIFEST_TEXT["C03"] = dict(
+    technique="Kani/CBMC bounded model checking of the real observe / local flush / proto / sample_count / sample_sum code over concrete operation sequences with symbolic values (sequential part); Lal-Reps scenarios with two collectors / batch flush in C02's thorough tier",
+    level="Solver verdict over all observation values in {0..3} for three operation sequences with three or more collections (direct observations, local batches, empty flushes, getters) against a reference multiset, plus: a quiescent collect returns at its first compare-exchange (unwinding assertion of the wait loop) from any state reached by <= 2 observations and <= 2 collections. Bounded sequences; interleavings are C02's.",
+    note="Trusted: histogram core constructed directly (1 bucket); Kani treats std atomics sequentially in these harnesses.",
+)
+MANIFEST_TEXT["C04"] = dict(
+    technique="Kani/CBMC bounded model checking of escape_string and write_sample against a reference renderer written in the harness, number rendering abstracted by injective markers",
+    level="Solver verdict for escape_string over every 1-byte string of the escape classes (quick; 2-3 bytes and multi-byte neighbours in thorough) and for write_sample without labels over every f64 bit pattern (marker rendering). Small bounds only: see DESIGN A.5 for what is outside.",
+    note="Trusted: find_first_occurence stub (naive search), f64/i64 Display markers (std's number formatting and its round trip with FromStr are assumed), fixed-buffer WriteUtf8 writer.",
+)
+MANIFEST_TEXT["C07"] = dict(
+    technique="Kani/CBMC bounded model checking of RegistryCore::gather with the collector map and registry-label map as abstract maps with symbolic iteration order (E6)",
+    level="Solver verdict over every iteration order (= hash seed / registration order) of 2-3 collectors and 2 registry labels and all sample values: one family per name with samples, increasing names, samples sorted by label values, prefix and common labels applied, result independent of the order. Collectors are harness-defined literals (the merge / sort / decorate logic of gather is the subject).",
+    note="Trusted: E6 verif_map (HashMap with symbolic order, BTreeMap as sorted array); collectors return literal families.",
+)
+MANIFEST_TEXT["C10"] = dict(
+    technique="Kani/CBMC bounded model checking of get-or-create's two critical sections with a complete foreign operation placed in the gap (interleavings at lock granularity), label values symbolic, E4 + E6",
+    level="Solver verdict over all 1-byte label values: whatever a second thread completes between the read-locked lookup and the write-locked get_or_create_metric (create same/other child and update, remove, remove and recreate), the outcome is that of a sequential order: same child for equal values (no lost update), one entry per label values, removed children stay usable and restart from zero. Bounded to the listed foreign operations.",
+    note="Trusted: the RwLock (every map access is inside one critical section, enforced by the borrow checker), E4, E6, Opts::describe literal stub, insertion-sort stub.",
+)
+MANIFEST_TEXT["C14"] = dict(
+    technique="Kani/CBMC bounded model checking of RegistryCore::register + gather for two collectors of different kinds under one name, iteration order symbolic (E6)",
+    level="Solver verdict over both iteration orders and all non-zero values. On the current tree the property is violated (known finding D7, listed in known_findings.json): the check prints KNOWN-FINDING for exactly that scenario and reports any other violation.",
+    note="Trusted: E6; collectors return literal families.",
+)
+MANIFEST_TEXT["C17"] = dict(
+    technique="Kani/CBMC panic-reachability checks (panic!, unimplemented!, unwrap, index, overflow) on TextEncoder for every MetricType and on check_metric_family; the other listed entry points are covered by the same checks inside C05/C06/C08/C09 harnesses",
+    level="Solver verdict: TextEncoder::encode_utf8 returns (Err for an UNTYPED family, Ok for counter/gauge) for literal one-sample families; families without name or samples are refused for every type. Bounded to one-sample families.",
+    note="Trusted: std::fmt::format stubbed, f64 Display marker, find_first_occurence stub.",
 )
 
 CLAIMED = ["C01", "C05", "C08", "C09", "C11", "C12", "C18"]
